@@ -4,6 +4,9 @@ VMAX = (1 << 62) - 1
 
 CAPS = [0, 1, 2, 3, 4, 5, 8, 10, 20, 31, 32, 33, 34, 35, 36, 40, 50, 64, 65, 66, 67, 68, 69, 70, 100, 130, 200, 1200,
         1500, 16390, 16391, 16392, 65535]
+# every capacity is below DataSender.cap_bound (Coq) = CAP_BOUND (Rust drivers) = transmit_capacity_clamp + 1
+CAP_BOUND = 65536
+assert max(CAPS) < CAP_BOUND
 LENS = [0, 1, 1, 2, 5, 10, 20, 31, 32, 33, 50, 63, 64, 65, 100, 100, 200, 300, 1000, 4095]
 WINS = [0, 1, 2, 5, 10, 40, 64, 100, 150, 1000, 4096, 1 << 20, VMAX]
 
